@@ -108,7 +108,7 @@ pub open spec fn rest_inv(pick: spec_fn(Seq<char>) -> Option<DefV>, av: Seq<DefV
 #[verifier::opaque]
 pub open spec fn step_inv(pick: spec_fn(Seq<char>) -> Option<DefV>, av: Seq<DefV>, seen: Set<Seq<char>>, done: Set<Seq<char>>,
                           cur: spec_fn(Seq<char>) -> Option<DefV>, nxt: spec_fn(Seq<char>) -> Option<DefV>) -> bool {
-    av_ok(pick, av, seen) && forall|n: Seq<char>| !seen.contains(n) ==> #[trigger] pick(n) == (if done.contains(n) { nxt(n) } else { cur(n) })
+    av_ok(pick, av, seen) && forall|n: Seq<char>| !seen.contains(n) ==> #[trigger] pick(n) == cur(n) && (done.contains(n) ==> cur(n) == nxt(n))
 }
 
 pub proof fn lemma_rest_init(pick: spec_fn(Seq<char>) -> Option<DefV>)
@@ -126,7 +126,7 @@ pub proof fn lemma_step_start(pick: spec_fn(Seq<char>) -> Option<DefV>, av: Seq<
 /// the phase adds definition d for name nm (not seen before): d is what `cur` says
 pub proof fn lemma_step_push(pick: spec_fn(Seq<char>) -> Option<DefV>, av: Seq<DefV>, seen: Set<Seq<char>>, done: Set<Seq<char>>,
                              cur: spec_fn(Seq<char>) -> Option<DefV>, nxt: spec_fn(Seq<char>) -> Option<DefV>, nm: Seq<char>, d: DefV)
-    requires step_inv(pick, av, seen, done, cur, nxt), !seen.contains(nm), !done.contains(nm), cur(nm) == Some(d), d.name == nm
+    requires step_inv(pick, av, seen, done, cur, nxt), !seen.contains(nm), cur(nm) == Some(d), d.name == nm
     ensures step_inv(pick, av.push(d), seen.insert(nm), done, cur, nxt)
 {
     reveal(step_inv); reveal(av_ok);
@@ -177,4 +177,207 @@ pub open spec fn avail_post(r: Seq<DefV>, v: AvV, file: PV) -> bool {
     &&& forall|k: int| 0 <= k < r.len() ==> avail_pick(v, file, (#[trigger] r[k]).name) == Some(r[k])
     // (ii) completeness: every name with a pick has an entry
     &&& forall|n: Seq<char>| (#[trigger] avail_pick(v, file, n)) is Some ==> exists|k: int| 0 <= k < r.len() && (#[trigger] r[k]).name == n
+}
+
+// ---- a scan phase: `for entry in definitions { for def in entry.value() { if COND(def) && !seen(name) { push; insert } } }`
+/// the phase takes, for every name not yet in the list, the first definition satisfying cond
+pub open spec fn phase_rel(v: AvV, cur: spec_fn(Seq<char>) -> Option<DefV>, cond: spec_fn(DefV) -> bool, nxt: spec_fn(Seq<char>) -> Option<DefV>) -> bool {
+    forall|n: Seq<char>| #[trigger] cur(n) == or_else(first_match(bucket(v.defs, n), cond), nxt(n))
+}
+pub proof fn lemma_scan_push(v: AvV, pick: spec_fn(Seq<char>) -> Option<DefV>, av: Seq<DefV>, seen: Set<Seq<char>>, done: Set<Seq<char>>,
+                             cur: spec_fn(Seq<char>) -> Option<DefV>, nxt: spec_fn(Seq<char>) -> Option<DefV>, cond: spec_fn(DefV) -> bool,
+                             nm: Seq<char>, i: int)
+    requires wf_names(v.defs), step_inv(pick, av, seen, done, cur, nxt), phase_rel(v, cur, cond, nxt),
+        v.defs.contains_key(nm), !seen.contains(nm), is_first(v.defs[nm], cond, i),
+    ensures step_inv(pick, av.push(v.defs[nm][i]), seen.insert(nm), done, cur, nxt)
+{
+    lemma_first_idx(v.defs[nm], cond, i);
+    assert(cur(nm) == Some(v.defs[nm][i]));
+    lemma_step_push(pick, av, seen, done, cur, nxt, nm, v.defs[nm][i]);
+}
+pub proof fn lemma_scan_done(v: AvV, pick: spec_fn(Seq<char>) -> Option<DefV>, av: Seq<DefV>, seen: Set<Seq<char>>, done: Set<Seq<char>>,
+                             cur: spec_fn(Seq<char>) -> Option<DefV>, nxt: spec_fn(Seq<char>) -> Option<DefV>, cond: spec_fn(DefV) -> bool, nm: Seq<char>)
+    requires step_inv(pick, av, seen, done, cur, nxt), phase_rel(v, cur, cond, nxt),
+        seen.contains(nm) || none_match(bucket(v.defs, nm), cond),
+    ensures step_inv(pick, av, seen, done.insert(nm), cur, nxt)
+{
+    if !seen.contains(nm) { lemma_first_none(bucket(v.defs, nm), cond); assert(cur(nm) == nxt(nm)); }
+    lemma_step_done(pick, av, seen, done, cur, nxt, nm);
+}
+pub proof fn lemma_scan_end(v: AvV, pick: spec_fn(Seq<char>) -> Option<DefV>, av: Seq<DefV>, seen: Set<Seq<char>>, done: Set<Seq<char>>,
+                            cur: spec_fn(Seq<char>) -> Option<DefV>, nxt: spec_fn(Seq<char>) -> Option<DefV>, cond: spec_fn(DefV) -> bool)
+    requires step_inv(pick, av, seen, done, cur, nxt), phase_rel(v, cur, cond, nxt),
+        forall|n: Seq<char>| v.defs.contains_key(n) ==> done.contains(n),
+    ensures rest_inv(pick, av, seen, nxt)
+{
+    assert forall|n: Seq<char>| !done.contains(n) && !seen.contains(n) implies #[trigger] cur(n) == nxt(n) by {
+        assert(bucket(v.defs, n).len() == 0);
+    }
+    lemma_step_end(pick, av, seen, done, cur, nxt);
+}
+
+// ---- the import phase of one walk step
+pub proof fn lemma_imp_push(v: AvV, pick: spec_fn(Seq<char>) -> Option<DefV>, av: Seq<DefV>, seen: Set<Seq<char>>, done: Set<Seq<char>>, dir: PV, nm: Seq<char>)
+    requires wf_names(v.defs), step_inv(pick, av, seen, done, rf_dir_imp(v, dir), rf_dir_par(v, dir)),
+        av_gate(v, conftest_of(dir)), (v.imp)(conftest_of(dir)).contains(nm), v.defs.contains_key(nm), v.defs[nm].len() > 0, !seen.contains(nm),
+    ensures step_inv(pick, av.push(v.defs[nm][0]), seen.insert(nm), done.insert(nm), rf_dir_imp(v, dir), rf_dir_par(v, dir))
+{
+    lemma_step_push(pick, av, seen, done, rf_dir_imp(v, dir), rf_dir_par(v, dir), nm, v.defs[nm][0]);
+    lemma_step_done(pick, av.push(v.defs[nm][0]), seen.insert(nm), done, rf_dir_imp(v, dir), rf_dir_par(v, dir), nm);
+}
+pub proof fn lemma_imp_skip(v: AvV, pick: spec_fn(Seq<char>) -> Option<DefV>, av: Seq<DefV>, seen: Set<Seq<char>>, done: Set<Seq<char>>, dir: PV, nm: Seq<char>)
+    requires step_inv(pick, av, seen, done, rf_dir_imp(v, dir), rf_dir_par(v, dir)),
+        seen.contains(nm) || bucket(v.defs, nm).len() == 0,
+    ensures step_inv(pick, av, seen, done.insert(nm), rf_dir_imp(v, dir), rf_dir_par(v, dir))
+{
+    lemma_step_done(pick, av, seen, done, rf_dir_imp(v, dir), rf_dir_par(v, dir), nm);
+}
+pub proof fn lemma_imp_end(v: AvV, pick: spec_fn(Seq<char>) -> Option<DefV>, av: Seq<DefV>, seen: Set<Seq<char>>, done: Set<Seq<char>>, dir: PV)
+    requires step_inv(pick, av, seen, done, rf_dir_imp(v, dir), rf_dir_par(v, dir)),
+        forall|n: Seq<char>| (v.imp)(conftest_of(dir)).contains(n) ==> done.contains(n),
+    ensures rest_inv(pick, av, seen, rf_dir_par(v, dir))
+{
+    lemma_step_end(pick, av, seen, done, rf_dir_imp(v, dir), rf_dir_par(v, dir));
+}
+/// the conftest is neither cached nor on disk: the import phase is skipped
+pub proof fn lemma_imp_closed(v: AvV, pick: spec_fn(Seq<char>) -> Option<DefV>, av: Seq<DefV>, seen: Set<Seq<char>>, dir: PV)
+    requires rest_inv(pick, av, seen, rf_dir_imp(v, dir)), !av_gate(v, conftest_of(dir)),
+    ensures rest_inv(pick, av, seen, rf_dir_par(v, dir))
+{
+    lemma_rest_eq(pick, av, seen, rf_dir_imp(v, dir), rf_dir_par(v, dir));
+}
+/// leaving a walk step: to the parent directory, or out of the walk
+pub proof fn lemma_walk_next(v: AvV, pick: spec_fn(Seq<char>) -> Option<DefV>, av: Seq<DefV>, seen: Set<Seq<char>>, dir: PV)
+    requires rest_inv(pick, av, seen, rf_dir_par(v, dir)),
+    ensures pv_has_parent(dir) && dir.len() > 0 ==> rest_inv(pick, av, seen, rf_from_dir(v, dir.drop_last())),
+        !(pv_has_parent(dir) && dir.len() > 0) ==> rest_inv(pick, av, seen, rf_plugin(v)),
+{
+    if pv_has_parent(dir) && dir.len() > 0 { lemma_rest_eq(pick, av, seen, rf_dir_par(v, dir), rf_from_dir(v, dir.drop_last())); }
+    else { lemma_rest_eq(pick, av, seen, rf_dir_par(v, dir), rf_plugin(v)); }
+}
+/// entering the walk (or skipping it when the file has no parent)
+pub proof fn lemma_walk_enter(v: AvV, pick: spec_fn(Seq<char>) -> Option<DefV>, av: Seq<DefV>, seen: Set<Seq<char>>, file: PV)
+    requires rest_inv(pick, av, seen, rf_after_same(v, file)),
+    ensures pv_has_parent(file) && file.len() > 0 ==> rest_inv(pick, av, seen, rf_from_dir(v, file.drop_last())),
+        !(pv_has_parent(file) && file.len() > 0) ==> rest_inv(pick, av, seen, rf_plugin(v)),
+{
+    if pv_has_parent(file) && file.len() > 0 { lemma_rest_eq(pick, av, seen, rf_after_same(v, file), rf_from_dir(v, file.drop_last())); }
+    else { lemma_rest_eq(pick, av, seen, rf_after_same(v, file), rf_plugin(v)); }
+}
+
+/// the end: every name is decided; sorting by name gives the postcondition
+pub proof fn lemma_avail_final(v: AvV, file: PV, av: Seq<FixtureDefinition>, seen: Set<Seq<char>>, r: Seq<FixtureDefinition>, p: Seq<int>)
+    requires rest_inv(rf_pick(v, file), dvs(av), seen, rf_none()),
+        r.len() == av.len(), is_index_perm(p, av.len() as int), forall|i: int| 0 <= i < r.len() ==> #[trigger] r[i] == av[p[i]],
+        sorted_by(r, name_cmp()),
+    ensures avail_post(dvs(r), v, file)
+{
+    reveal(rest_inv); reveal(av_ok);
+    let pick = rf_pick(v, file);
+    let a = dvs(av); let rr = dvs(r);
+    assert forall|i: int| 0 <= i < rr.len() implies #[trigger] rr[i] == a[p[i]] by { assert(r[i] == av[p[i]]); }
+    assert forall|i: int, j: int| 0 <= i < j < rr.len() implies str_le((#[trigger] rr[i]).name, (#[trigger] rr[j]).name) && rr[i].name != rr[j].name by {
+        assert(!(name_cmp()(r[i], r[j]) is Greater));
+        assert(p[i] != p[j]);
+        if p[i] < p[j] { assert(a[p[i]].name != a[p[j]].name); } else { assert(a[p[j]].name != a[p[i]].name); }
+    }
+    assert forall|k: int| 0 <= k < rr.len() implies avail_pick(v, file, (#[trigger] rr[k]).name) == Some(rr[k]) by {
+        assert(pick(a[p[k]].name) == Some(a[p[k]]));
+    }
+    assert forall|n: Seq<char>| (#[trigger] avail_pick(v, file, n)) is Some implies exists|k: int| 0 <= k < rr.len() && (#[trigger] rr[k]).name == n by {
+        assert(pick(n) is Some);
+        assert(seen.contains(n));
+        let q = choose|q: int| 0 <= q < a.len() && (#[trigger] a[q]).name == n;
+        lemma_index_perm_onto(p, av.len() as int, q);
+        let k = choose|k: int| 0 <= k < av.len() && #[trigger] p[k] == q;
+        assert(rr[k].name == n);
+    }
+}
+
+// ---------------------------------------------------------------------------------------------
+// Operational specification of `resolve_fixture_for_file` (call-hierarchy outgoing calls), from the code.
+/// priority-2 candidate: not third-party, the file is named conftest.py, has a parent directory, and that
+/// directory is a prefix (component-wise) of the canonicalised requesting file
+pub open spec fn ff_cand(cfile: PV) -> spec_fn(DefV) -> bool {
+    |d: DefV| !d.is_third_party && pv_is_suffix(seq![conftest_name()], d.file) && pv_has_parent(d.file) && d.file.len() > 0
+        && pv_is_prefix(d.file.drop_last(), cfile)
+}
+pub open spec fn ff_depth(d: DefV) -> int { d.file.drop_last().len() as int }
+/// the fold the loop performs.  `best_depth` starts at usize::MAX, so for the FIRST candidate `depth > best_depth`
+/// is false and the `best_conftest.is_none()` branch takes it; from then on best_depth is that candidate's depth
+/// and a later candidate replaces it iff it is STRICTLY deeper.  Net effect: the deepest candidate; among equally
+/// deep ones the first registered.
+pub open spec fn ff_best(ds: Seq<DefV>, p: spec_fn(DefV) -> bool) -> Option<DefV>
+    decreases ds.len()
+{
+    if ds.len() == 0 { None } else {
+        let rest = ff_best(ds.drop_last(), p);
+        let x = ds.last();
+        if !p(x) { rest } else { match rest { None => Some(x), Some(y) => if ff_depth(x) > ff_depth(y) { Some(x) } else { Some(y) } } }
+    }
+}
+/// what resolve_fixture_for_file computes (ds = definitions[name] in registration order, cfile = canonical path
+/// of the file).  NOTE: imports are not consulted at all, and the fallback returns ds[0] whatever file it is in.
+pub open spec fn op_resolve_ff(ds: Seq<DefV>, file: PV, cfile: PV) -> Option<DefV> {
+    match first_match(ds, p_same(file, fs_true())) {
+        Some(d) => Some(d),
+        None => match ff_best(ds, ff_cand(cfile)) {
+            Some(d) => Some(d),
+            None => match first_match(ds, p_plugin(fs_true())) {
+                Some(d) => Some(d),
+                None => match first_match(ds, p_third(fs_true())) {
+                    Some(d) => Some(d),
+                    None => if ds.len() > 0 { Some(ds[0]) } else { None },
+                },
+            },
+        },
+    }
+}
+pub open spec fn is_ff_best(ds: Seq<DefV>, p: spec_fn(DefV) -> bool, i: int) -> bool {
+    0 <= i < ds.len() && p(ds[i])
+    && (forall|j: int| 0 <= j < ds.len() && p(#[trigger] ds[j]) ==> ff_depth(ds[j]) <= ff_depth(ds[i]))
+    && (forall|j: int| 0 <= j < i && p(#[trigger] ds[j]) ==> ff_depth(ds[j]) < ff_depth(ds[i]))
+}
+/// ff_best = the first candidate of maximal depth (PROVED characterisation of the fold)
+pub proof fn lemma_ff_best_props(ds: Seq<DefV>, p: spec_fn(DefV) -> bool)
+    ensures match ff_best(ds, p) {
+        None => none_match(ds, p),
+        Some(b) => exists|i: int| is_ff_best(ds, p, i) && ds[i] == b,
+    }
+    decreases ds.len()
+{
+    if ds.len() > 0 {
+        let t = ds.drop_last();
+        lemma_ff_best_props(t, p);
+        let x = ds.last();
+        assert forall|j: int| 0 <= j < t.len() implies t[j] == ds[j] by {}
+        match ff_best(t, p) {
+            None => {
+                if p(x) { assert(is_ff_best(ds, p, ds.len() - 1)); }
+                else { assert forall|j: int| 0 <= j < ds.len() implies !p(#[trigger] ds[j]) by { if j < t.len() { assert(t[j] == ds[j]); } } }
+            }
+            Some(y) => {
+                let i = choose|i: int| is_ff_best(t, p, i) && t[i] == y;
+                if p(x) && ff_depth(x) > ff_depth(y) {
+                    assert forall|j: int| 0 <= j < ds.len() && p(#[trigger] ds[j]) implies ff_depth(ds[j]) <= ff_depth(x) by { if j < t.len() { assert(t[j] == ds[j]); } }
+                    assert forall|j: int| 0 <= j < ds.len() - 1 && p(#[trigger] ds[j]) implies ff_depth(ds[j]) < ff_depth(x) by { assert(t[j] == ds[j]); }
+                    assert(is_ff_best(ds, p, ds.len() - 1));
+                } else {
+                    assert forall|j: int| 0 <= j < ds.len() && p(#[trigger] ds[j]) implies ff_depth(ds[j]) <= ff_depth(ds[i]) by { if j < t.len() { assert(t[j] == ds[j]); } }
+                    assert forall|j: int| 0 <= j < i && p(#[trigger] ds[j]) implies ff_depth(ds[j]) < ff_depth(ds[i]) by { assert(t[j] == ds[j]); }
+                    assert(is_ff_best(ds, p, i));
+                }
+            }
+        }
+    }
+}
+/// one loop step of the fold
+pub proof fn lemma_ff_best_step(ds: Seq<DefV>, p: spec_fn(DefV) -> bool, i: int)
+    requires 0 <= i < ds.len()
+    ensures ff_best(ds.take(i + 1), p) == ({
+        let rest = ff_best(ds.take(i), p); let x = ds[i];
+        if !p(x) { rest } else { match rest { None => Some(x), Some(y) => if ff_depth(x) > ff_depth(y) { Some(x) } else { Some(y) } } } })
+{
+    assert(ds.take(i + 1).drop_last() =~= ds.take(i));
+    assert(ds.take(i + 1).last() == ds[i]);
 }
